@@ -36,7 +36,7 @@ pub struct Ctl {
     pub faults_hit: AtomicU64,
     pub log: Mutex<Vec<OpKind>>,
     pub logging: AtomicBool,
-    /// capture commit batches; when `capture_apply` is false they are NOT written
+    /// capture every write (in order) while set; when `capture_apply` is false the writes are NOT applied
     pub capture: AtomicBool,
     pub capture_apply: AtomicBool,
     pub captured: Mutex<Vec<Vec<DbRecord>>>,
@@ -118,6 +118,12 @@ impl Database for VDb {
         self.gate().await;
         self.step(OpKind::Set)?;
         self.check_reject(std::slice::from_ref(&record))?;
+        if self.ctl.capture.load(Ordering::SeqCst) {
+            self.ctl.captured.lock().unwrap().push(vec![record.clone()]);
+            if !self.ctl.capture_apply.load(Ordering::SeqCst) {
+                return Ok(());
+            }
+        }
         let r = self.inner.set(record).await;
         self.gate().await;
         r
@@ -127,7 +133,7 @@ impl Database for VDb {
         let commit = matches!(state, DbSetState::TransactionCommit);
         self.step(if commit { OpKind::BatchSetCommit } else { OpKind::BatchSetGeneral })?;
         self.check_reject(&records)?;
-        if commit && self.ctl.capture.load(Ordering::SeqCst) {
+        if self.ctl.capture.load(Ordering::SeqCst) {
             self.ctl.captured.lock().unwrap().push(records.clone());
             if !self.ctl.capture_apply.load(Ordering::SeqCst) {
                 return Ok(());
